@@ -149,8 +149,8 @@ def check_c11(tier, seed):
                         return False
                 return True
             # repeated runs from scratch under different GOMAXPROCS, several processes
-            for gmp in (["1", "2", "16"] if tier == "quick" else [str(x) for x in range(1, 17)]):
-                for rep in range(2 if tier == "quick" else 4):
+            for gmp in (["1", "2", "16"] if tier == "quick" else ["1", "2", "3", "4", "6", "8", "12", "16"]):
+                for rep in range(2 if tier == "quick" else 3):
                     clean()
                     gen(tg, {"GOMAXPROCS": gmp})
                     if not compare("fresh-run: fresh directory, GOMAXPROCS=%s" % gmp, ["fresh run", "fresh run again with GOMAXPROCS=" + gmp]):
@@ -214,5 +214,5 @@ def check_c11(tier, seed):
         shutil.rmtree(ex_root, ignore_errors=True)
     R.samples = samples
     R.coverage.update({"evaluations": runs, "distinct_nontrivial": len(distinct), "traces_validated_against_impl": runs,
-                       "rule": "generator runs over a probe package (same-named imports, user types named Errgroup/Context, injector named like its own result variable, two files) and seeded packages, each target set: fresh runs under GOMAXPROCS in {1,2,16} (quick) / 1..16 (thorough), re-runs over the previous output, over truncated (30%, 70%), longer and stale output; every examples/* regenerated with and without the checked-in output present; distinct = distinct output files"})
+                       "rule": "generator runs over a probe package (same-named imports, user types named Errgroup/Context, injector named like its own result variable, two files) and seeded packages, each target set: fresh runs under GOMAXPROCS in {1,2,16} (quick) / {1,2,3,4,6,8,12,16} (thorough), re-runs over the previous output, over truncated (30%, 70%), longer and stale output; every examples/* regenerated with and without the checked-in output present; distinct = distinct output files"})
     return R.finish("cd lean && lake build KV.Props.C11 && lake env lean <audit of Props/C11 theorems>", TRUSTED)
